@@ -171,7 +171,18 @@ def run_history(world, conf, cats, hist, path, rec, seed=1):
             with contextlib.redirect_stdout(io.StringIO()):
                 if op == 'iter':
                     got = []
-                    for c in fc:
+                    if (pos + seed) % 2:
+                        # the forecast is its own iterator: a complete pass may be driven with next() alone
+                        def passes_via_next():
+                            while True:
+                                try:
+                                    yield next(fc)
+                                except StopIteration:
+                                    return
+                        src_iter = passes_via_next()
+                    else:
+                        src_iter = fc
+                    for c in src_iter:
                         ids = [int(x.decode()[1:]) for x in c.get_event_ids()] if c.event_count else []
                         got.append([c.catalog_id if c.catalog_id is not None else -1] + ids)
                     ret = {'k': 'cats', 'v': got, 'n': len(got)}
